@@ -2,7 +2,8 @@
 Driver arm for Model/Merge.lean (one table).
 
   merge hist <nr> <nc> <op>…
-     ops: w r c v | ar n st d | ac n st d | dr n st | dc n st          (as in Drv/Grid.lean, no table index)
+     ops: w r c v | ar n st d | ac n st d | dr n st | dc n st          (as in Drv/Grid.lean, no table index;
+                                                                        `mstep`: the structural edits end with `_move_merges`)
           mg r0 c0 r1 c1              Table.merge_cells of one range
           ml k (r0 c0 r1 c1)×k        Table.merge_cells of a list
           sk                          Document.save, keep working on the open document
